@@ -84,7 +84,7 @@ func Run(t *testing.T, prop string, body func(c *Ctx)) {
 		viol:       map[string]*violation{},
 		distinct:   map[string]struct{}{},
 		outcomes:   map[string]int64{},
-		replayDir:  filepath.Join(verif, "replays", prop),
+		replayDir:  env("VERIF_REPLAY_DIR", filepath.Join(verif, "replays", prop)),
 		evPath:     env("VERIF_EVIDENCE", filepath.Join(verif, "evidence", prop+".json")),
 		replayFile: os.Getenv("VERIF_REPLAY"),
 		level:      "model_checking",
